@@ -97,7 +97,8 @@ CHECKS = {
         "(given reload faithfulness, the C06 statement, as explicit hypothesis, discharged for the State model: linear in full, indexed on a fragment, and refuted for the unrestricted indexed semantics by an expiry witness); TTL independence; no creation under existence checking; single load for all schedules without the Open window, with negative theorems (decide witnesses) for the window, the boolean Pending, "
         "marker erasure and the unchecked open. Tied to the code by twin Systems under TTL never/1ms/forever x CheckExistence x indexed/linear on the same histories (results, per-request load counts, cache membership), protocol-level interleavings with instance identity, "
         "and schedules forced through ctx.LogHook.",
-   note="Partial: single-load is proved for window-free schedules only; four negative theorems are replayed on the code as known findings. ReloadOK (C06) is an explicit hypothesis; clock brackets are reconstructed for TTL 1 ms.",
+   note="Since the three repairs in /repo (holder count, ClearLocation keeps the marker, checked requests verify cached entries) transparency holds sequentially and under overlapping holders for every TTL without side condition "
+        "(cache_transparent_seq, cache_transparent_under_overlap, single_load, checked_request_never_served_unverified); ReloadOK (C06) discharged for the linear State and an indexed fragment; DeleteLocation is not modelled; clock brackets are reconstructed for TTL 1 ms.",
    technique="Lean 4 proof over an executable cache model (simulation proof, schedule induction with N unbounded, decide witnesses) + twin-configuration differential testing + LogHook-forced schedules", ref="5 (C17)"),
  "C18": dict(
    text="Lean 4 theorems (Props/C18.lean, 20, audited) about DWIMURI (idempotence, prefix/version/query insensitivity for all strings), parameter typing, equality of the System call across six encodings under decoder contracts, "
